@@ -75,6 +75,10 @@ def option_invariance(ctx, texts):
 def raw_path(ctx, tier):
     """pest_optimizer = false compiled and run: faithful raw model (T2) and the PEG spec (T3)"""
     texts = [t for t in grammar.HAND if "ws_ref" not in t][:14 if tier == "quick" else 26]
+    # counted repetitions (single RepMin / RepMinMax nodes on the raw path) whose iterations touch the stack
+    texts += ['letter = { \'a\'..\'c\' }\nentry = { PUSH(letter) ~ ":" }\nmain = { entry{1,3} ~ letter ~ POP }\nmost = { entry{,2} ~ letter ~ POP }\n'
+              'ex = ${ (PUSH("a") ~ ":"){2} ~ POP ~ POP? }\nmn = ${ (PUSH("a" | "b") ~ ":"){1,} ~ PEEK }\ndr = ${ PUSH("a") ~ PUSH("b") ~ (DROP ~ ":"){,2} ~ PEEK }',
+              'item = { "x" }\nlist = { item{2,3} ~ "." }\nopt2 = { ("x" | "y"){,2} ~ "x"? }\nnest = { (item{1,2} ~ ","){1,2} }']
     rng = Rng(777)
     cand = [grammar.rand_grammar(rng.fork("x%d" % i)) for i in range(40 if tier == "quick" else 300)]
     dgs = [dcorp.DG("w%d" % i, t, {"pest_optimizer": False}) for i, t in enumerate(texts + cand)]
@@ -98,14 +102,24 @@ def raw_path(ctx, tier):
     known = [k for k in load_known_findings() if k.get("status") == "known" and k.get("class") == "optimizer_rewrote_rule"
              and k.get("property") == "C20"]
     pending = []
-    n = t2_bad = 0
+    n = t2_bad = n_direct = 0
     for a, b, x, aa, pe, gg in dcorp.records_pe(run):
         n += 1
         sid = a[:a.index("|")]
         g = by[sid.split(".")[0]]
         if a != b:
             t2_bad += 1
-            if t2_bad <= 3:
+            fa, fb = rtcat.split_line(a)[5], rtcat.split_line(b)[5]
+            tva = fa["P"][:fa["P"].index("=")] if fa["P"].startswith("ok@") else "fail"
+            tvb = fb["P"][:fb["P"].index("=")] if fb["P"].startswith("ok@") else "fail"
+            gv0 = gg[:gg.index(":")] if gg.startswith("ok@") else gg
+            if tvb == gv0 and tva != gv0 and n_direct < 3:
+                # the faithful raw model agrees with pest's semantics here, the code does not: switching the optimizer
+                # off changes what this rule accepts
+                n_direct += 1
+                ctx.violation("with pest_optimizer = false rule %s no longer accepts what it accepts with the optimizer on: typed %s, PEG spec / pest %s (and the model no longer matches the code)"
+                              % (sid, tva, gv0), {"grammar": g.text, "options": {"pest_optimizer": False}, "input_hex": a.split("|")[2], "impl": a, "model": b, "spec": gg})
+            elif t2_bad <= 3:
                 ctx.violation("raw-path model/implementation correspondence broken on %s" % sid,
                               {"grammar": g.text, "impl": a, "model": b, "broken": "correspondence translate_raw + Sem.v vs the derive with pest_optimizer = false"},
                               found_input=False)
